@@ -133,6 +133,41 @@ def link_shape(ck, prog, pv, pvn, stem, K, lb, hb, term_p, id_p, adds, direct):
         # the `was new` side must feed the term's ancestors (direct parents or the closure) back into the work list
         abi0, at0 = adds[0]
         lp = hb.loop_of(abi0)
+        in_loop = [(bi_, t_) for bi_, t_ in adds if hb.loop_of(bi_) is not None]
+        if lp is None and in_loop:
+            # flat form: the term itself first, then ONE pass over its closure set (which is transitively closed, so no descent is needed)
+            from engines import for_loops, loop_skip_path
+            bi1, t1 = in_loop[0]
+            fl_ = [l_ for l_ in for_loops(hb) if bi1 in l_["blocks"]]
+            if not fl_:
+                ck.undecided("DOM", "link_%s_term/propagation" % stem, "link_%s_term links the ancestors in a loop that is not a `for` over a collection" % stem, where=hb.where(t1.line))
+                return
+            l1 = fl_[0]
+            src = pv.of_operand(hb, l1["iter"])
+            fl_names = field_names(src, "HpoTermInternal") & {"parents", "all_parents", "children"}
+            src_term = set()
+            for a in pvn.of_operand(hb, l1["iter"]):
+                if a[0] == "call" and a[3] == hb.id and "termarena::Arena::get" in a[1]:
+                    src_term |= params_of(pvn.of_operand(hb, hb.blocks[a[4]].term.args[1]), hb.id)
+            pos_e = positive_edges(hb, pvn, abi0)
+            neg_only = False
+            for (sbi, tg) in pos_e:
+                for o in hb.blocks[sbi].term.successors():
+                    if o != tg and l1["header"] in hb.region((sbi, o)) and not any(l1["header"] in hb.region((sbi, tg2)) for (_, tg2) in pos_e):
+                        neg_only = True
+            ck.ob("DOM", "link_%s_term/propagation" % stem, not neg_only, "link_%s_term walks the ancestors %s" % (stem, "when the id was newly added (or unconditionally)" if not neg_only else "ONLY when the id was already present: new annotations never reach the ancestors"), where=hb.where(t1.line))
+            ck.ob("DOM", "link_%s_term/over-closure" % stem, fl_names == {"all_parents"} and (not src_term or src_term == {term_p}), "the flat pass visits %s of the term looked up by `%s`" % ("the closure set (all_parents)" if fl_names == {"all_parents"} else (sorted(fl_names) or "?"), idname(src_term)), where=hb.where(t1.line))
+            skipped = loop_skip_path(hb, l1, {bi_ for bi_, _ in in_loop})
+            ck.ob("DOM", "link_%s_term/every-ancestor" % stem, not skipped, "every ancestor of the pass gets the id (no path back to the loop head without adding it)" if not skipped else "some ancestors are passed over without getting the id", where=hb.where(t1.line))
+            elem_ok = all(any(x[0] == "call" and x[3] == hb.id and x[4] == l1["next_bb"] for x in pvn.of_operand(hb, add_term_op(t_))) for _, t_ in in_loop)
+            ida = params_of(pvn.of_operand(hb, add_id_op(t1)), hb.id)
+            key = set()
+            for a in pvn.of_operand(hb, add_term_op(at0)):
+                if a[0] == "call" and a[3] == hb.id and "termarena::Arena::get" in a[1]:
+                    key |= params_of(pvn.of_operand(hb, hb.blocks[a[4]].term.args[1]), hb.id)
+            ida0 = params_of(pvn.of_operand(hb, add_id_op(at0)), hb.id)
+            ck.ob("DOM", "link_%s_term/links" % stem, key == {term_p} and ida0 == {id_p} and ida == {id_p} and elem_ok, "link_%s_term adds record `%s` to the term looked up by `%s` and to each element of the pass" % (stem, idname(ida0), idname(key)), where=hb.where(at0.line))
+            return
         if lp is None:
             ck.ob("DOM", "link_%s_term/propagation" % stem, False, "link_%s_term neither recurses nor loops: the %s never reaches the ancestors" % (stem, K), where=hb.where())
             return
@@ -364,11 +399,17 @@ def run(ck, prog, ctx):
             continue
         hb_, tp_ = shape_of.get(stem, (lb, 2))
         lk = set()
+        keyed = []
         for bi, t in hb_.calls():
             r = t.callee.res or ""
             if r.startswith("ontology::termarena::Arena::") and r.rsplit("::", 1)[-1] in ("get", "get_mut", "get_unchecked", "get_unchecked_mut") and len(t.args) == 2:
                 if params_of(pvn.of_operand(hb_, t.args[1]), hb_.id) & {tp_}:
-                    lk.add(r.rsplit("::", 1)[-1])
+                    keyed.append((bi, r.rsplit("::", 1)[-1]))
+        for bi, nm_ in keyed:
+            # an unchecked access AFTER a checked lookup of the same id (the error was returned in between) is a re-borrow, not the lookup
+            if "unchecked" in nm_ and any("unchecked" not in n2 and b2 != bi and hb_.dominates(b2, bi) for b2, n2 in keyed):
+                continue
+            lk.add(nm_)
         how[stem] = lk
         if not lk:
             ck.undecided("DOM", "link_%s_term/checked-lookup" % stem, "lookup of the term by `term_id` not recognised", where=lb.where())
